@@ -1965,3 +1965,74 @@ func ruleG37(r *Run) {
 		r.Undec("reallocations of counter slices", 0, "none found")
 	}
 }
+
+// ---------------------------------------------------------------------------------------------------
+// P18 a retry does not outlive the call's context
+
+func init() {
+	register("P18", "in Cluster.Handler the re-invocation for a retry is reached only over a test of the call's context (ctx.Err() / ctx.Done()) made after the retry interval, and the interval itself is not slept through blindly (no time.Sleep on the retry path): a call whose context has been cancelled or has passed its deadline must return, not wait and be sent again - with five retries and a 200 ms minimum interval a 100 ms call returned after 3 s", 1, ruleP18)
+}
+
+func ruleP18(r *Run) {
+	p := r.P
+	fd, pkg := p.DeclOf("rpc/plugins/cluster", "Cluster.Handler")
+	key := "retry bounded by the call's context in rpc/plugins/cluster.Cluster.Handler"
+	if fd == nil {
+		r.Undec(key, 0, "not found")
+		return
+	}
+	info := pkg.TypesInfo
+	self, _ := info.Defs[fd.Name].(*types.Func)
+	parents := parentMap(fd.Body)
+	ctxParams := map[types.Object]bool{}
+	for _, pv := range paramsOf(info, fd.Type) {
+		if isNamed(pv.Type(), "context", "Context") {
+			ctxParams[pv] = true
+		}
+	}
+	found := false
+	ast.Inspect(fd.Body, func(m ast.Node) bool {
+		c, ok := m.(*ast.CallExpr)
+		if !ok || Callee(info, c) != self || self == nil {
+			return true
+		}
+		found = true
+		// a dominating test of the context: negated guard `if ctx.Err() != nil { return }`, or a select on Done() that leaves
+		tested := false
+		for _, fc := range factsWithSwitch(parents, c) {
+			ast.Inspect(fc.e, func(k ast.Node) bool {
+				if mc, ok := k.(*ast.CallExpr); ok && (methodName(mc) == "Err" || methodName(mc) == "Done") {
+					if se, ok := ast.Unparen(mc.Fun).(*ast.SelectorExpr); ok && ctxDerived(info, fd.Body, se.X, ctxParams, 0) {
+						tested = true
+					}
+				}
+				return true
+			})
+		}
+		// blind sleep on the way
+		sleeps := false
+		for x := parents[c]; x != nil; x = parents[x] {
+			if blk, ok := x.(*ast.BlockStmt); ok {
+				for _, st := range blk.List {
+					if st.Pos() >= c.Pos() {
+						break
+					}
+					ast.Inspect(st, func(k ast.Node) bool {
+						if sc, ok := k.(*ast.CallExpr); ok && FullNameOf(info, sc) == "time.Sleep" {
+							sleeps = true
+						}
+						return true
+					})
+				}
+			}
+			if _, isLit := x.(*ast.FuncLit); isLit {
+				break
+			}
+		}
+		r.Check(tested && !sleeps, key, c.Pos(), "ctx tested after the interval, no blind sleep", "the retry path sleeps through its interval and re-sends the call without looking at the call's context: a call that has been cancelled or is past its deadline keeps waiting and retrying until its retry budget is used up")
+		return true
+	})
+	if !found {
+		r.Undec(key, fd.Pos(), "no re-invocation of Cluster.Handler found")
+	}
+}
